@@ -111,6 +111,15 @@ def verify_function(pkg: Package, contract: Contract,
     fi = pkg.func(contract.key)
     rep = FunctionReport(contract.key, fi.span(), fi.source_hash())
     t0 = time.time()
+    from .extract import _deco_names
+    odd = [d for d in _deco_names(fi.node)
+           if d not in ("property", "staticmethod", "abstractmethod")]
+    if odd or len(fi.node.decorator_list) != len(_deco_names(fi.node)):
+        o = rep.ob(f"{contract.key}/*", "engine", contract.public,
+                   contract.props)
+        o.status = "undecided"
+        o.detail = f"Unsupported: decorator(s) {odd or '?'} are not modelled"
+        return rep
     for sc in contract.scenarios():
         try:
             _verify_scenario(pkg, fi, contract, sc, summaries, schema, rep,
@@ -207,7 +216,14 @@ def _meta_obligations(contract, sc, path, requires, cases, rep, prefix_id):
                     PROOF_TIMEOUT_MS)
     o.merge(v, "an input satisfying the precondition falls under no case")
     for c in cases:
-        rep.case_hits.setdefault(f"{prefix_id}/{c.name}", 0)
+        # a case whose guard is inconsistent with the precondition in this
+        # scenario is not applicable here (not a vacuity problem)
+        s2 = z3.Solver()
+        s2.set("timeout", 3000)
+        s2.add(*path.pc)
+        s2.add(c.when)
+        if s2.check() != z3.unsat:
+            rep.case_hits.setdefault(f"{prefix_id}/{c.name}", 0)
 
 
 def _frame_goals(ctx: Ctx, out: Outcome, case: Case) -> List[Tuple[str, Any]]:
